@@ -68,6 +68,18 @@ def lexrun(seed, tier, log=print, extra_modes=('p',)):
         if corpus[i].utf8:
             ri = [b for b in ri if P.is_valid_utf8(list(b))]
         allin = sorted(set(gi) | set(ri) | set(P.sequence_inputs(caps[i], corpus[i].utf8)) | {b''})
+        if not corpus[i].utf8:
+            # byte mode: text that is not well-formed UTF-8 in the places where patterns written for text are at work (round 28) -
+            # a character cut short by the end of the input, a stray lead / continuation / impossible byte inside a sample
+            base = [b for b in allin if 0 < len(b) <= 24][:: max(1, len(allin) // 40)][:40]
+            bad = set()
+            for b in base:
+                for t in (b'\xc3', b'\xe2', b'\xe2\x82', b'\xf0', b'\xf0\x9f\x98'):
+                    bad.add(b + t)
+                for x in (b'\xff', b'\x80', b'\xe2', b'\xc0\xaf'):
+                    bad.add(b[:1] + x + b[1:])
+                    bad.add(b[:len(b) // 2 + 1] + x + b[len(b) // 2 + 1:])
+            allin = sorted(set(allin) | bad)
         inputs[i] = allin
         stats[i] = dict(st, n_inputs=len(allin))
     # zoo
